@@ -276,7 +276,7 @@ def run_case(case, R):
     st = xp.explore(body, on_result, hashing=case.get('hashing', True),
                     horizon=case.get('horizon', 400),
                     max_dev=case.get('max_dev'),
-                    max_execs=case.get('max_execs', 400000))
+                    max_execs=case.get('max_execs', 150000))
     if case.get('max_dev') is not None:
         R.stats['cases_deviation_bounded'] += 1
     for key in ('executions', 'states', 'transitions', 'cut', 'horizon', 'cap_hit',
@@ -346,7 +346,7 @@ def estimate(kind, k, n, m, planted):
 def cases(tier, seed):
     thorough = tier == 'thorough'
     cs = []
-    limit = 3000 if thorough else 130
+    limit = 800 if thorough else 130
     for kind in ('kcnf', 'kxor'):
         for n in range(0, 4):
             for k in range(0, n + 2):
@@ -362,7 +362,7 @@ def cases(tier, seed):
                         if not thorough:
                             mmax = 3 if n <= 2 else (2 if k <= 1 else 1)
                         else:
-                            mmax = 6 if n <= 2 else (3 if k <= 1 else 2)
+                            mmax = 5 if n <= 2 else (3 if k <= 1 else 2)
                         if m > mmax:
                             continue
                         cs.append({'kind': kind, 'k': k, 'n': n, 'm': m,
@@ -388,8 +388,7 @@ def cases(tier, seed):
         cs.append({'kind': 'kcnf', 'k': 1, 'n': 2, 'm': 4, 'planted': [], 'pname': 'none'})
         cs.append({'kind': 'kxor', 'k': 1, 'n': 2, 'm': 4, 'planted': [], 'pname': 'none'})
     if thorough:
-        extra = [('kcnf', 2, 4, 2), ('kcnf', 1, 4, 3), ('kxor', 2, 4, 2), ('kxor', 3, 4, 2),
-                 ('kcnf', 4, 4, 2), ('kxor', 1, 4, 3)]
+        extra = [('kcnf', 1, 4, 2), ('kxor', 1, 4, 2), ('kcnf', 4, 4, 1), ('kxor', 4, 4, 1)]
         for (kind, k, n, m) in extra:
             cs.append({'kind': kind, 'k': k, 'n': n, 'm': m, 'planted': [], 'pname': 'none'})
     return cs
